@@ -161,6 +161,33 @@ binary_base64_decode(const char *value, size_t value_len, void **data, size_t *s
 }
 
 /**
+ * @brief Check whether a valid base64 string is the canonical encoding of its value,
+ * meaning the unused bits of the last character before the padding are zero (RFC 4648 sec. 3.5).
+ *
+ * @param[in] value Validated base64 string.
+ * @param[in] value_len Length of @p value.
+ * @return Whether @p value is canonical.
+ */
+static ly_bool
+binary_base64_is_canonical(const char *value, size_t value_len)
+{
+    const unsigned char *ptr = (const unsigned char *)value;
+
+    if ((value_len < 4) || (ptr[value_len - 1] != '=')) {
+        /* no padding, no unused bits */
+        return 1;
+    }
+
+    if (ptr[value_len - 2] == '=') {
+        /* 2 padding characters, 4 unused bits */
+        return !(b64_dtable[ptr[value_len - 3]] & 0x0F);
+    }
+
+    /* 1 padding character, 2 unused bits */
+    return !(b64_dtable[ptr[value_len - 2]] & 0x03);
+}
+
+/**
  * @brief Validate a base64 string.
  *
  * @param[in] value Value to validate.
@@ -307,7 +334,9 @@ lyplg_type_store_binary(const struct ly_ctx *ctx, const struct lysc_type *type, 
     LY_CHECK_GOTO(ret, cleanup);
 
     /* store canonical value */
-    if (options & LYPLG_TYPE_STORE_DYNAMIC) {
+    if ((format != LY_VALUE_CANON) && !binary_base64_is_canonical(value, value_len)) {
+        /* some unused bits are set, the canonical value will be generated from the binary value when needed */
+    } else if (options & LYPLG_TYPE_STORE_DYNAMIC) {
         ret = lydict_insert_zc(ctx, (char *)value, &storage->_canonical);
         options &= ~LYPLG_TYPE_STORE_DYNAMIC;
         LY_CHECK_GOTO(ret, cleanup);
